@@ -52,21 +52,27 @@ func (tmgc *TCPMuxGroupCtl) Listen(
 	multiplexer, group, groupKey string,
 	routeConfig vhost.RouteConfig,
 ) (l net.Listener, err error) {
-	tmgc.mu.Lock()
-	tcpMuxGroup, ok := tmgc.groups[group]
-	if !ok {
-		tcpMuxGroup = NewTCPMuxGroup(tmgc)
-		tmgc.groups[group] = tcpMuxGroup
-	}
-	tmgc.mu.Unlock()
-	verifhook.At("group.lookedup", "kind", "tcpmux", "group", group, "obj", verifhook.ID(tcpMuxGroup), "created", !ok, "member", "", "key", groupKey, "param", routeConfig.Domain+"|"+routeConfig.RouteByHTTPUser+"|"+routeConfig.Username+"|"+routeConfig.Password)
+	for {
+		tmgc.mu.Lock()
+		tcpMuxGroup, ok := tmgc.groups[group]
+		if !ok {
+			tcpMuxGroup = NewTCPMuxGroup(tmgc)
+			tmgc.groups[group] = tcpMuxGroup
+		}
+		tmgc.mu.Unlock()
+		verifhook.At("group.lookedup", "kind", "tcpmux", "group", group, "obj", verifhook.ID(tcpMuxGroup), "created", !ok, "member", "", "key", groupKey, "param", routeConfig.Domain+"|"+routeConfig.RouteByHTTPUser+"|"+routeConfig.Username+"|"+routeConfig.Password)
 
-	switch v1.TCPMultiplexerType(multiplexer) {
-	case v1.TCPMultiplexerHTTPConnect:
-		return tcpMuxGroup.HTTPConnectListen(ctx, group, groupKey, routeConfig)
-	default:
-		err = fmt.Errorf("unknown multiplexer [%s]", multiplexer)
-		return
+		switch v1.TCPMultiplexerType(multiplexer) {
+		case v1.TCPMultiplexerHTTPConnect:
+			l, err = tcpMuxGroup.HTTPConnectListen(ctx, group, groupKey, routeConfig)
+			if err != ErrGroupClosed {
+				return
+			}
+			// the last member left this group after we looked it up: it has been removed, retry with a new one
+		default:
+			err = fmt.Errorf("unknown multiplexer [%s]", multiplexer)
+			return
+		}
 	}
 }
 
@@ -87,6 +93,7 @@ type TCPMuxGroup struct {
 	password        string
 
 	acceptCh chan net.Conn
+	closed   bool
 	tcpMuxLn net.Listener
 	lns      []*TCPMuxGroupListener
 	ctl      *TCPMuxGroupCtl
@@ -115,6 +122,9 @@ func (tmg *TCPMuxGroup) HTTPConnectListen(
 	defer func() {
 		verifhook.At("group.join", "kind", "tcpmux", "group", group, "obj", verifhook.ID(tmg), "member", "", "ln", verifhook.ID(ln), "n", len(tmg.lns), "err", err, "key", groupKey, "param", routeConfig.Domain+"|"+routeConfig.RouteByHTTPUser+"|"+routeConfig.Username+"|"+routeConfig.Password, "port", 0)
 	}()
+	if tmg.closed {
+		return nil, ErrGroupClosed
+	}
 	if len(tmg.lns) == 0 {
 		// the first listener, listen on the real address
 		tcpMuxLn, errRet := tmg.ctl.tcpMuxHTTPConnectMuxer.Listen(ctx, &routeConfig)
@@ -187,6 +197,7 @@ func (tmg *TCPMuxGroup) CloseListener(ln *TCPMuxGroupListener) {
 		}
 	}
 	if len(tmg.lns) == 0 {
+		tmg.closed = true
 		close(tmg.acceptCh)
 		tmg.tcpMuxLn.Close()
 		tmg.ctl.RemoveGroup(tmg.group)
